@@ -4,7 +4,7 @@ use std::collections::BTreeMap;
 use elements::confidential::{Asset, AssetBlindingFactor, Nonce, Value, ValueBlindingFactor};
 use elements::encode::deserialize;
 use elements::secp256k1_zkp::{Generator, PedersenCommitment, RangeProof, SurjectionProof};
-use elements::{AssetId, AssetIssuance, BlindAssetProofs, BlindValueProofs, LockTime, OutPoint, Script, Sequence, Transaction, TxIn, TxInWitness, TxOut, TxOutWitness, VerificationError};
+use elements::{AssetId, AssetIssuance, BlindAssetProofs, BlindValueProofs, LockTime, OutPoint, Script, Sequence, Transaction, TxIn, TxInWitness, TxOut, TxOutSecrets, TxOutWitness, VerificationError};
 use rand::SeedableRng;
 use rand_chacha::ChaCha20Rng;
 use serde_json::json;
@@ -12,6 +12,7 @@ use serde_json::json;
 use super::c04;
 use crate::engine::*;
 use crate::gen::ct::{self, CtCase};
+use crate::gen::ext_g3::{self as ext, CtOpts};
 use crate::gen::{self, pool, secp};
 use crate::{ensure, ensure_eq};
 
@@ -58,7 +59,9 @@ fn domain_size(tx: &Transaction) -> usize {
         .sum()
 }
 
-fn tampers(t: &mut Tape, tx: &Transaction, spent: &[TxOut], ctx: &mut Ctx) -> Vec<Tamper> {
+/// `must_use`: indices of spent outputs that some surjection proof of `tx` necessarily uses (the only
+/// domain entry of the asset of a blinded output), known when the harness built the base
+fn tampers(t: &mut Tape, tx: &Transaction, spent: &[TxOut], must_use: &[usize], ctx: &mut Ctx) -> Vec<Tamper> {
     let p = pool();
     let mut out: Vec<Tamper> = Vec::new();
     let mut push = |class: &'static str, tx2: Transaction, spent2: Vec<TxOut>, len: bool, out: &mut Vec<Tamper>, ctx: &mut Ctx| {
@@ -83,7 +86,11 @@ fn tampers(t: &mut Tape, tx: &Transaction, spent: &[TxOut], ctx: &mut Ctx) -> Ve
                 push("explicit-amount-1", b, spent.to_vec(), false, &mut out, ctx);
             }
         }
-        if let Asset::Explicit(a) = o.asset {
+        if o.value == Value::Explicit(0) && ext::ref_unspendable(&o.script_pubkey) {
+            // the output takes no part in the balance: another asset id on it changes nothing the
+            // statement speaks about
+            ctx.class("tamper:skipped-asset-of-zero-value-unspendable-output");
+        } else if let Asset::Explicit(a) = o.asset {
             let mut b = tx.clone();
             let other = p.assets.iter().find(|x| **x != a).copied().unwrap_or(AssetId::LIQUID_BTC);
             b.output[i].asset = Asset::Explicit(other);
@@ -167,20 +174,91 @@ fn tampers(t: &mut Tape, tx: &Transaction, spent: &[TxOut], ctx: &mut Ctx) -> Ve
     for (k, inp) in tx.input.iter().enumerate() {
         if let Value::Explicit(v) = inp.asset_issuance.amount {
             let mut a = tx.clone();
-            a.input[k].asset_issuance.amount = Value::Explicit(v + 1);
+            a.input[k].asset_issuance.amount = Value::Explicit(if v == u64::MAX { v - 1 } else { v + 1 });
             push("issuance-amount-changed", a, spent.to_vec(), false, &mut out, ctx);
         }
         if let Value::Explicit(v) = inp.asset_issuance.inflation_keys {
             let mut a = tx.clone();
-            a.input[k].asset_issuance.inflation_keys = Value::Explicit(v + 1);
+            a.input[k].asset_issuance.inflation_keys = Value::Explicit(if v == u64::MAX { v - 1 } else { v + 1 });
             push("issuance-inflation-keys-changed", a, spent.to_vec(), false, &mut out, ctx);
         }
     }
-    // different spent outputs
+    // issuance amounts: commitment replaced / amount removed
+    for (k, inp) in tx.input.iter().enumerate() {
+        let iss = &inp.asset_issuance;
+        if iss.amount.is_confidential() {
+            let mut a = tx.clone();
+            a.input[k].asset_issuance.amount = Value::Confidential(p.commitments[t.below(p.commitments.len())]);
+            push("issuance-amount-commitment-replaced", a, spent.to_vec(), false, &mut out, ctx);
+        }
+        if iss.inflation_keys.is_confidential() {
+            let mut a = tx.clone();
+            a.input[k].asset_issuance.inflation_keys = Value::Confidential(p.commitments[t.below(p.commitments.len())]);
+            push("issuance-inflation-keys-commitment-replaced", a, spent.to_vec(), false, &mut out, ctx);
+        }
+        if !iss.amount.is_null() && iss.amount != Value::Explicit(0) {
+            let mut a = tx.clone();
+            a.input[k].asset_issuance.amount = Value::Null;
+            push("issuance-amount-removed", a, spent.to_vec(), false, &mut out, ctx);
+        }
+        if !iss.inflation_keys.is_null() && iss.inflation_keys != Value::Explicit(0) {
+            let mut a = tx.clone();
+            a.input[k].asset_issuance.inflation_keys = Value::Null;
+            push("issuance-inflation-keys-removed", a, spent.to_vec(), false, &mut out, ctx);
+        }
+    }
+    // different spent outputs: the asset. Only where the change is necessarily visible: the spent
+    // output has an explicit amount (its commitment v*H changes), every proof uses every domain
+    // entry (domain <= 3), or the harness knows that a proof must use this entry.
+    let small_domain = domain_size(tx) <= 3 && tx.output.iter().any(|o| o.asset.is_confidential() && o.witness.surjection_proof.is_some());
+    for k in 0..spent.len() {
+        let why = match spent[k].value {
+            Value::Explicit(v) if v > 0 => Some("spent-output-asset-replaced:explicit-amount"),
+            _ if must_use.contains(&k) => Some("spent-output-asset-replaced:only-entry-of-a-blinded-outputs-asset"),
+            _ if small_domain => Some("spent-output-asset-replaced:domain<=3"),
+            _ => None,
+        };
+        match why {
+            Some(class) => {
+                let mut s = spent.to_vec();
+                s[k].asset = match s[k].asset {
+                    Asset::Explicit(a) => Asset::Explicit(p.assets.iter().find(|x| **x != a).copied().unwrap_or(AssetId::LIQUID_BTC)),
+                    other => {
+                        let g = p.generators[t.below(p.generators.len())];
+                        if Asset::Confidential(g) != other {
+                            Asset::Confidential(g)
+                        } else {
+                            Asset::Confidential(p.generators[(t.below(p.generators.len() - 1) + 1) % p.generators.len()])
+                        }
+                    }
+                };
+                push(class, tx.clone(), s, false, &mut out, ctx);
+            }
+            None => ctx.class("tamper:skipped-spent-asset-not-necessarily-detectable"),
+        }
+        // a spent output without asset / value can never be verified against
+        let mut s = spent.to_vec();
+        s[k].asset = Asset::Null;
+        push("spent-output-asset-null", tx.clone(), s, false, &mut out, ctx);
+        let mut s = spent.to_vec();
+        s[k].value = Value::Null;
+        push("spent-output-value-null", tx.clone(), s, false, &mut out, ctx);
+        // another output altogether
+        let mut s = spent.to_vec();
+        s[k] = TxOut {
+            asset: Asset::Confidential(p.generators[t.below(p.generators.len())]),
+            value: Value::Confidential(p.commitments[t.below(p.commitments.len())]),
+            nonce: Nonce::Null,
+            script_pubkey: Script::new(),
+            witness: TxOutWitness::empty(),
+        };
+        push("spent-output-replaced", tx.clone(), s, false, &mut out, ctx);
+    }
+    // different spent outputs: the value
     for k in 0..spent.len() {
         let mut s = spent.to_vec();
         match s[k].value {
-            Value::Explicit(v) => s[k].value = Value::Explicit(v + 1),
+            Value::Explicit(v) => s[k].value = Value::Explicit(if v == u64::MAX { v - 1 } else { v + 1 }),
             Value::Confidential(_) => s[k].value = Value::Confidential(p.commitments[t.below(p.commitments.len())]),
             Value::Null => {}
         }
@@ -212,71 +290,272 @@ fn tampers(t: &mut Tape, tx: &Transaction, spent: &[TxOut], ctx: &mut Ctx) -> Ve
     out
 }
 
-fn run_tampers(t: &mut Tape, tx: &Transaction, spent: &[TxOut], base_sig: &str, ctx: &mut Ctx) -> R {
-    let base = verify(tx, spent)?;
-    ctx.eval();
-    if let Err(e) = base {
-        return Err(Failure::new(format!("base transaction ({}) does not verify: {} ({:?})", base_sig, e, e)));
+fn tamper_passed(tm: &Tamper, base_sig: &str, tx: &Transaction, spent: &[TxOut], order: &str) -> Failure {
+    // where the tampered pair differs from the base
+    let form = |o: &TxOut| {
+        format!(
+            "{} amount {}, {} asset, range proof {}, surjection proof {}, script of {} bytes starting {:02x?}{}",
+            if o.value.is_confidential() { "confidential" } else if o.value.is_null() { "null" } else { "explicit" },
+            o.value.explicit().map_or(String::new(), |v| v.to_string()),
+            if o.asset.is_confidential() { "confidential" } else if o.asset.is_null() { "null" } else { "explicit" },
+            if o.witness.rangeproof.is_some() { "present" } else { "absent" },
+            if o.witness.surjection_proof.is_some() { "present" } else { "absent" },
+            o.script_pubkey.len(),
+            o.script_pubkey.as_bytes().first(),
+            if ext::ref_unspendable(&o.script_pubkey) { " (provably unspendable)" } else { "" }
+        )
+    };
+    let mut at = String::new();
+    if let Some(i) = (0..tx.output.len().min(tm.tx.output.len())).find(|i| tx.output[*i] != tm.tx.output[*i]) {
+        at = format!("output {}: {} -> {}", i, form(&tx.output[i]), form(&tm.tx.output[i]));
+    } else if let Some(i) = (0..tx.input.len().min(tm.tx.input.len())).find(|i| tx.input[*i] != tm.tx.input[*i]) {
+        at = format!("input {}: issuance {:?} -> {:?}", i, tx.input[i].asset_issuance, tm.tx.input[i].asset_issuance);
+    } else if let Some(i) = (0..spent.len().min(tm.spent.len())).find(|i| spent[*i] != tm.spent[*i]) {
+        at = format!("spent output {}: {} -> {}", i, form(&spent[i]), form(&tm.spent[i]));
+    } else if spent.len() != tm.spent.len() {
+        at = format!("{} spent outputs instead of {}", tm.spent.len(), spent.len());
     }
-    for tm in tampers(t, tx, spent, ctx) {
+    Failure::new(format!(
+        "amount verification still succeeds after tamper `{}` of a verifying transaction ({}; {})\n at {}\n tx outputs={} inputs={} surjection domain={} confidential issuance amounts / keys={}",
+        tm.class,
+        base_sig,
+        order,
+        at,
+        tx.output.len(),
+        tx.input.len(),
+        domain_size(tx),
+        tx.input.iter().map(|i| usize::from(i.asset_issuance.amount.is_confidential()) + usize::from(i.asset_issuance.inflation_keys.is_confidential())).sum::<usize>()
+    ))
+}
+
+/// Base and tampers. A base the library does not accept is outside the quantifier ("starting from
+/// any transaction that verifies"): counted and excluded, C04 owns that failure. For a tape-chosen
+/// half of the cases the tampers are verified *before* the base is verified for the first time, and
+/// the base is verified again at the end (a rejection there is counted, not failed: C04 checks it).
+fn run_tampers(t: &mut Tape, tx: &Transaction, spent: &[TxOut], base_sig: &str, must_use: &[usize], extra: Vec<Tamper>, ctx: &mut Ctx) -> R {
+    let tampers_first = t.bool();
+    if !tampers_first {
+        let base = verify(tx, spent)?;
+        ctx.eval();
+        if base.is_err() {
+            ctx.class("base-not-verifying(excluded; C04's business)");
+            ctx.exclude();
+            return Ok(());
+        }
+    }
+    let mut list = tampers(t, tx, spent, must_use, ctx);
+    list.extend(extra);
+    let mut passed: Option<usize> = None;
+    let mut rejected: Vec<usize> = Vec::new();
+    for (n, tm) in list.iter().enumerate() {
         let r = verify(&tm.tx, &tm.spent)?;
         ctx.eval();
         match r {
             Ok(()) => {
-                return Err(Failure::new(format!(
-                    "amount verification still succeeds after tamper `{}` of a verifying transaction ({})\n tx outputs={} inputs={}",
-                    tm.class,
-                    base_sig,
-                    tx.output.len(),
-                    tx.input.len()
-                )));
+                if !tampers_first {
+                    return Err(tamper_passed(tm, base_sig, tx, spent, "base verified first"));
+                }
+                passed.get_or_insert(n);
             }
             Err(e) => {
                 if tm.must_be_len_mismatch {
                     ensure!(e == VerificationError::UtxoInputLenMismatch, "a spent-output list of the wrong length is rejected as {:?}, not as UtxoInputLenMismatch", e);
                 }
-                ctx.class(&format!("tamper:{}", tm.class));
-                ctx.nontrivial(&(base_sig, tm.class, crate::refimpl::enc::tx_full(&tm.tx), tm.spent.len()));
+                rejected.push(n);
             }
         }
+    }
+    // the genuine pair again (first time for the tampers-first order)
+    let again = verify(tx, spent)?;
+    ctx.eval();
+    if again.is_err() {
+        if tampers_first {
+            ctx.class("base-not-verifying(excluded; C04's business)");
+            ctx.exclude();
+            return Ok(());
+        }
+        ctx.class("base-rejected-when-verified-again-after-tampers(counted only)");
+    }
+    if let Some(n) = passed {
+        return Err(tamper_passed(&list[n], base_sig, tx, spent, "tampers verified before the base"));
+    }
+    ctx.class(if tampers_first { "order:tampers-before-base" } else { "order:base-before-tampers" });
+    for n in rejected {
+        let tm = &list[n];
+        ctx.class(&format!("tamper:{}", tm.class));
+        ctx.nontrivial(&(base_sig, tm.class, crate::refimpl::enc::tx_full(&tm.tx), tm.spent.len()));
     }
     Ok(())
 }
 
-fn tamper_generated(t: &mut Tape, ctx: &mut Ctx) -> R {
-    let case: CtCase = ct::gen_ct_case(t, false);
-    let (tx, _map) = c04::blind_case(&case)?;
-    let sig = format!("generated:{}", hex(&case.rng_seed[..8]));
-    if ctx.wants_sample("generated-base") {
-        ctx.sample("generated-base", || c04::describe(&case));
+/// spent outputs that are the only surjection-domain entry of the asset of some asset-blinded output
+fn sole_entries(tx: &Transaction, secrets: &[TxOutSecrets], blinded_assets: &[AssetId]) -> Vec<usize> {
+    let mut out = Vec::new();
+    let mut cursor = 0usize;
+    for (k, inp) in tx.input.iter().enumerate() {
+        if let Some(sec) = secrets.get(cursor) {
+            if blinded_assets.contains(&sec.asset) && secrets.iter().filter(|x| x.asset == sec.asset).count() == 1 {
+                out.push(k);
+            }
+        }
+        cursor += 1 + usize::from(!inp.asset_issuance.amount.is_null()) + usize::from(!inp.asset_issuance.inflation_keys.is_null());
     }
-    run_tampers(t, &tx, &case.spent, &sig, ctx)
+    out
+}
+
+const BASE_OPTS: CtOpts = CtOpts { allow_unmarked: false, ext_scripts: true, explicit_nonces: true, burn_outputs: true, huge: false };
+
+fn tamper_generated(t: &mut Tape, ctx: &mut Ctx) -> R {
+    let x = ext::gen_ct_case_ext(t, CtOpts { huge: true, ..BASE_OPTS });
+    let case: &CtCase = &x.case;
+    let sig = format!("generated:{}", hex(&case.rng_seed[..8]));
+    let (tx, _map) = match c04::blind_case(case) {
+        Ok(r) => r,
+        Err(_) => {
+            // blinding is C04's property
+            ctx.class("base-not-blindable(excluded; C04's business)");
+            ctx.exclude();
+            return Ok(());
+        }
+    };
+    if ctx.wants_sample("generated-base") {
+        ctx.sample("generated-base", || c04::describe(case));
+    }
+    if !x.burn.is_empty() {
+        ctx.class("generated-base:positive-amount-on-burn-script");
+    }
+    if x.huge {
+        ctx.class("generated-base:huge-amount");
+    }
+    let blinded_assets: Vec<AssetId> = case.receivers.keys().filter_map(|i| case.tx.output[*i].asset.explicit()).collect();
+    let must_use = sole_entries(&tx, &case.secrets, &blinded_assets);
+    run_tampers(t, &tx, &case.spent, &sig, &must_use, Vec::new(), ctx)
 }
 
 /// Verifying bases with *partially* blinded outputs (confidential amount over an explicit asset,
 /// confidential asset with an explicit amount) next to fully blinded and explicit ones, over spent
-/// outputs of every form.  Built from the secp256k1-zkp primitives, not by `Transaction::blind`
-/// (which only produces fully blinded outputs); the one library function used is
-/// `ValueBlindingFactor::last`, and the base must verify before anything is tampered with.
+/// outputs of every form, with blinded outputs on OP_RETURN / oversize / empty / non-standard
+/// scripts, positive and zero amounts on provably unspendable scripts, and confidential issuance
+/// amounts. Built from the secp256k1-zkp primitives alone (the balancing blinding factor is the
+/// harness's own modular arithmetic), checked with the harness's own amount verifier; the library
+/// must accept the base before anything is tampered with (otherwise the case is excluded).
 fn tamper_hybrid(t: &mut Tape, ctx: &mut Ctx) -> R {
-    let case: CtCase = ct::gen_ct_case(t, false);
+    let x = ext::gen_ct_case_ext(t, BASE_OPTS);
+    let case: &CtCase = &x.case;
     let s = secp();
     let p = pool();
     let mut rng = ChaCha20Rng::from_seed(case.rng_seed);
     let mut tx = case.tx.clone();
-    // form of each non-fee output: 0 explicit, 1 fully blinded, 2 amount only, 3 asset only
+    let mut secrets: Vec<TxOutSecrets> = case.secrets.clone();
+    // a zero-value output on a provably unspendable script (outside the balance)
+    let mut zero_idx: Option<usize> = None;
+    if t.chance(80) {
+        let asset = match t.below(3) {
+            0 => tx.output[0].asset,
+            1 => tx.output[t.below(tx.output.len())].asset,
+            _ => Asset::Explicit(p.assets[t.below(p.assets.len())]),
+        };
+        let script = if t.chance(64) { Script::new() } else { ext::burn_script(t).0 };
+        let at = t.below(tx.output.len() + 1);
+        tx.output.insert(at, TxOut { asset, value: Value::Explicit(0), nonce: Nonce::Null, script_pubkey: script, witness: TxOutWitness::empty() });
+        zero_idx = Some(at);
+    }
+    // confidential issuance amounts (the token id depends on the amount being confidential)
+    let mut conf_issuance = false;
+    {
+        let mut cursor = 0usize;
+        for k in 0..tx.input.len() {
+            cursor += 1;
+            let iss = tx.input[k].asset_issuance;
+            let amount_entry = if iss.amount.is_null() { None } else { Some(cursor) };
+            cursor += usize::from(amount_entry.is_some());
+            let keys_entry = if iss.inflation_keys.is_null() { None } else { Some(cursor) };
+            cursor += usize::from(keys_entry.is_some());
+            let both = amount_entry.is_some() && keys_entry.is_some();
+            if iss.is_null() || !t.chance(if both { 230 } else { 150 }) {
+                continue;
+            }
+            // 0 amount, 1 keys, 2 both
+            let which = if both { t.choose(&[2usize, 0, 2, 1]) } else { t.below(3) };
+            if let (Some(e), Value::Explicit(v), true) = (amount_entry, iss.amount, which != 1) {
+                let vbf = ct::vbf_from(t, 300 + k as u32);
+                let g = Generator::new_unblinded(s, secrets[e].asset.into_tag());
+                tx.input[k].asset_issuance.amount = Value::Confidential(PedersenCommitment::new(s, v, vbf.into_inner(), g));
+                secrets[e].value_bf = vbf;
+                conf_issuance = true;
+                if let Some(ke) = keys_entry {
+                    // the reissuance token of a confidential issuance is another asset
+                    let old = secrets[ke].asset;
+                    let (_, new) = ct::ref_issuance_ids(&tx.input[k]);
+                    secrets[ke].asset = new;
+                    for o in tx.output.iter_mut() {
+                        if o.asset == Asset::Explicit(old) {
+                            o.asset = Asset::Explicit(new);
+                        }
+                    }
+                    ctx.class("hybrid-base:token-of-a-confidential-issuance");
+                }
+            }
+            if let (Some(e), Value::Explicit(v), true) = (keys_entry, iss.inflation_keys, which != 0) {
+                let vbf = ct::vbf_from(t, 400 + k as u32);
+                let g = Generator::new_unblinded(s, secrets[e].asset.into_tag());
+                tx.input[k].asset_issuance.inflation_keys = Value::Confidential(PedersenCommitment::new(s, v, vbf.into_inner(), g));
+                secrets[e].value_bf = vbf;
+                conf_issuance = true;
+            }
+        }
+    }
+    // form of each output: 0 explicit, 1 fully blinded, 2 amount only, 3 asset only
     let n = tx.output.len();
-    let mut form: Vec<usize> = (0..n).map(|i| if tx.output[i].script_pubkey.is_empty() { 0 } else { t.below(4) }).collect();
+    let mut form: Vec<usize> = (0..n)
+        .map(|i| {
+            if Some(i) == zero_idx {
+                0
+            } else if tx.output[i].script_pubkey.is_empty() {
+                // a fee-shaped output stays explicit, except now and then
+                if t.chance(24) { 1 + t.below(3) } else { 0 }
+            } else {
+                t.below(4)
+            }
+        })
+        .collect();
     if !form.iter().any(|f| *f == 1 || *f == 2) {
         // some output has to absorb the blinding factors of the others and of the spent outputs
-        if let Some(k) = case.receivers.keys().next() {
-            form[*k] = 2;
+        if let Some(k) = (0..n).find(|i| Some(*i) != zero_idx && !tx.output[*i].script_pubkey.is_empty() && !ext::ref_unspendable(&tx.output[*i].script_pubkey)) {
+            form[k] = 2;
+        } else if let Some(k) = (0..n).find(|i| Some(*i) != zero_idx) {
+            form[k] = 2;
         }
     }
     let Some(last) = (0..n).rev().find(|i| form[*i] == 1 || form[*i] == 2) else {
         ctx.exclude();
         return Ok(());
     };
+    // scripts of blinded outputs: now and then provably unspendable, empty or non-standard
+    let mut odd_script = false;
+    for i in 0..n {
+        if form[i] == 0 && Some(i) != zero_idx && !tx.output[i].script_pubkey.is_empty() && t.chance(48) {
+            // an explicit positive amount that is burnt
+            tx.output[i].script_pubkey = ext::burn_script(t).0;
+        }
+        if form[i] != 0 && t.chance(56) {
+            tx.output[i].script_pubkey = match t.below(4) {
+                0 => ext::op_return_script(t).0,
+                1 => Script::from(vec![0x51; 10_001]),
+                2 => Script::new(),
+                _ => {
+                    // bare scripts no address stands for
+                    let mut v = vec![0x51, 0x21];
+                    v.extend_from_slice(&p.pubkeys[t.below(p.pubkeys.len())].serialize());
+                    v.extend_from_slice(&[0x51, 0xae]);
+                    let cut = t.below(4);
+                    v.truncate(v.len() - cut);
+                    Script::from(v)
+                }
+            };
+            odd_script = true;
+        }
+    }
     let mut abfs = Vec::new();
     let mut vbfs = Vec::new();
     for i in 0..n {
@@ -284,11 +563,16 @@ fn tamper_hybrid(t: &mut Tape, ctx: &mut Ctx) -> R {
         vbfs.push(if (form[i] == 1 || form[i] == 2) && i != last { ct::vbf_from(t, 200 + i as u32) } else { ValueBlindingFactor::zero() });
     }
     let plain: Vec<(AssetId, u64)> = tx.output.iter().map(|o| (o.asset.explicit().unwrap_or(AssetId::LIQUID_BTC), o.value.explicit().unwrap_or(0))).collect();
-    let ins: Vec<(u64, AssetBlindingFactor, ValueBlindingFactor)> = case.secrets.iter().map(|x| (x.value, x.asset_bf, x.value_bf)).collect();
+    let ins: Vec<(u64, AssetBlindingFactor, ValueBlindingFactor)> = secrets.iter().map(|x| (x.value, x.asset_bf, x.value_bf)).collect();
     let outs: Vec<(u64, AssetBlindingFactor, ValueBlindingFactor)> = (0..n).filter(|i| *i != last).map(|i| (plain[i].1, abfs[i], vbfs[i])).collect();
-    vbfs[last] = guard::guard("ValueBlindingFactor::last", 0, || ValueBlindingFactor::last(s, plain[last].1, abfs[last], &ins, &outs))?;
-    let domain: Vec<(Generator, elements::secp256k1_zkp::Tag, elements::secp256k1_zkp::Tweak)> = case
-        .secrets
+    vbfs[last] = match ext::ref_last_vbf(plain[last].1, abfs[last], &ins, &outs) {
+        Some(v) => v,
+        None => {
+            ctx.exclude();
+            return Ok(());
+        }
+    };
+    let domain: Vec<(Generator, elements::secp256k1_zkp::Tag, elements::secp256k1_zkp::Tweak)> = secrets
         .iter()
         .map(|x| {
             let tag = x.asset.into_tag();
@@ -296,6 +580,7 @@ fn tamper_hybrid(t: &mut Tape, ctx: &mut Ctx) -> R {
             (g, tag, x.asset_bf.into_inner())
         })
         .collect();
+    let mut extra: Vec<Tamper> = Vec::new();
     for i in 0..n {
         let (asset, value) = plain[i];
         let tag = asset.into_tag();
@@ -305,10 +590,10 @@ fn tamper_hybrid(t: &mut Tape, ctx: &mut Ctx) -> R {
         let o = &mut tx.output[i];
         if blinded_asset {
             o.asset = Asset::Confidential(g);
-            let sp = guard::guard("SurjectionProof::new", 0, || SurjectionProof::new(s, &mut rng, tag, abfs[i].into_inner(), &domain))?;
+            let sp = SurjectionProof::new(s, &mut rng, tag, abfs[i].into_inner(), &domain);
             match sp {
                 Ok(sp) => o.witness.surjection_proof = Some(Box::new(sp)),
-                Err(e) => return Err(Failure::new(format!("harness: surjection proof for output {} cannot be built: {}", i, e))),
+                Err(e) => return Err(Failure::panic(format!("harness: surjection proof for output {} cannot be built: {}", i, e), "src/props/c05.rs".into())),
             }
         }
         if blinded_value {
@@ -316,17 +601,42 @@ fn tamper_hybrid(t: &mut Tape, ctx: &mut Ctx) -> R {
             o.value = Value::Confidential(comm);
             let sk = p.seckeys[t.below(p.seckeys.len())];
             let msg = [i as u8; 64];
-            let rp = guard::guard("RangeProof::new", 0, || RangeProof::new(s, 1, comm, value, vbfs[i].into_inner(), &msg, o.script_pubkey.as_bytes(), sk, 0, 52, g))?;
+            let rp = RangeProof::new(s, 1, comm, value, vbfs[i].into_inner(), &msg, o.script_pubkey.as_bytes(), sk, 0, 52, g);
             match rp {
                 Ok(rp) => o.witness.rangeproof = Some(Box::new(rp)),
-                Err(e) => return Err(Failure::new(format!("harness: range proof for output {} cannot be built: {}", i, e))),
+                Err(e) => return Err(Failure::panic(format!("harness: range proof for output {} cannot be built: {}", i, e), "src/props/c05.rs".into())),
             }
         }
         if blinded_asset || blinded_value {
             o.nonce = Nonce::Confidential(p.pubkeys[t.below(p.pubkeys.len())]);
-        } else {
+        } else if o.nonce.is_confidential() {
+            // an explicit output keeps a null / explicit nonce, not a receiver key
             o.nonce = Nonce::Null;
         }
+    }
+    // a tamper only the balance can catch: one blinded amount re-committed to value + 1 with a
+    // fresh, valid range proof (every proof of the tampered transaction is valid)
+    for i in 0..n {
+        if (form[i] == 1 || form[i] == 2) && t.chance(128) {
+            let (_, value) = plain[i];
+            let g = match tx.output[i].asset {
+                Asset::Confidential(g) => g,
+                Asset::Explicit(a) => Generator::new_unblinded(s, a.into_tag()),
+                Asset::Null => continue,
+            };
+            let comm = PedersenCommitment::new(s, value + 1, vbfs[i].into_inner(), g);
+            let sk = p.seckeys[t.below(p.seckeys.len())];
+            if let Ok(rp) = RangeProof::new(s, 1, comm, value + 1, vbfs[i].into_inner(), &[i as u8; 64], tx.output[i].script_pubkey.as_bytes(), sk, 0, 52, g) {
+                let mut b = tx.clone();
+                b.output[i].value = Value::Confidential(comm);
+                b.output[i].witness.rangeproof = Some(Box::new(rp));
+                extra.push(Tamper { class: "blinded-amount+1-with-valid-range-proof", tx: b, spent: case.spent.clone(), must_be_len_mismatch: false });
+            }
+        }
+    }
+    // the base is valid by the rule itself, whatever the library says
+    if let Err(e) = ext::ref_verify(&tx, &case.spent) {
+        return Err(Failure::panic(format!("harness: the hand-built base does not verify under the harness's own verifier: {}", e), "src/props/c05.rs".into()));
     }
     for f in [1usize, 2, 3] {
         if form.contains(&f) {
@@ -336,11 +646,26 @@ fn tamper_hybrid(t: &mut Tape, ctx: &mut Ctx) -> R {
     if case.has_partial_input {
         ctx.class("hybrid-base:partially-blinded-spent-output");
     }
+    if odd_script {
+        ctx.class("hybrid-base:blinded-output-on-unspendable-empty-or-bare-script");
+    }
+    if zero_idx.is_some() {
+        ctx.class("hybrid-base:zero-value-output-on-unspendable-script");
+    }
+    if conf_issuance {
+        ctx.class("hybrid-base:confidential-issuance-amount");
+    }
+    if (0..n).any(|i| form[i] == 0 && plain[i].1 > 0 && !tx.output[i].script_pubkey.is_empty() && ext::ref_unspendable(&tx.output[i].script_pubkey)) {
+        ctx.class("hybrid-base:positive-explicit-amount-on-burn-script");
+    }
     let sig = format!("hybrid:{}:{}", hex(&case.rng_seed[..8]), form.iter().map(|f| f.to_string()).collect::<String>());
     if ctx.wants_sample("hybrid-base") {
-        ctx.sample("hybrid-base", || json!({"case": c04::describe(&case), "output_forms(0 explicit,1 full,2 amount only,3 asset only)": form.clone()}));
+        ctx.sample("hybrid-base", || json!({"case": c04::describe(case), "output_forms(0 explicit,1 full,2 amount only,3 asset only)": form.clone(),
+            "script_lengths": tx.output.iter().map(|o| o.script_pubkey.len()).collect::<Vec<_>>(), "zero_value_output_at": zero_idx, "confidential_issuance": conf_issuance}));
     }
-    run_tampers(t, &tx, &case.spent, &sig, ctx)
+    let blinded_assets: Vec<AssetId> = (0..n).filter(|i| form[*i] == 1 || form[*i] == 3).map(|i| plain[i].0).collect();
+    let must_use = sole_entries(&tx, &secrets, &blinded_assets);
+    run_tampers(t, &tx, &case.spent, &sig, &must_use, extra, ctx)
 }
 
 /// the repository's real-network vector: tests/data/issue_tx.hex with its spent outputs (from the
@@ -363,7 +688,7 @@ fn repo_vectors(idx: u64, seed: u64, ctx: &mut Ctx) -> R {
     let rnd = seeded_bytes(seed, idx, 2048);
     let mut t = Tape::new(&rnd);
     ctx.class(&format!("vector:{}", name));
-    run_tampers(&mut t, &tx, &spent, name, ctx)
+    run_tampers(&mut t, &tx, &spent, name, &[], Vec::new(), ctx)
 }
 
 pub fn verify_vectors() -> Vec<(String, String, Vec<String>)> {
@@ -594,6 +919,298 @@ fn explicit_balance(t: &mut Tape, ctx: &mut Ctx) -> R {
     Ok(())
 }
 
+/// the statement's rule for all-explicit transactions, in integers: per asset, inputs + issuances ==
+/// outputs + fees; a zero amount only on a provably unspendable script (where it is outside the balance)
+fn explicit_expected(tx: &Transaction, spent: &[TxOut]) -> Option<(bool, bool)> {
+    let mut bal: BTreeMap<AssetId, i128> = BTreeMap::new();
+    for (i, inp) in tx.input.iter().enumerate() {
+        let (Asset::Explicit(a), Value::Explicit(v)) = (spent.get(i)?.asset, spent.get(i)?.value) else { return None };
+        *bal.entry(a).or_insert(0) += i128::from(v);
+        let (aid, tid) = ct::ref_issuance_ids(inp);
+        match inp.asset_issuance.amount {
+            Value::Explicit(v) => *bal.entry(aid).or_insert(0) += i128::from(v),
+            Value::Null => {}
+            Value::Confidential(_) => return None,
+        }
+        match inp.asset_issuance.inflation_keys {
+            Value::Explicit(v) => *bal.entry(tid).or_insert(0) += i128::from(v),
+            Value::Null => {}
+            Value::Confidential(_) => return None,
+        }
+    }
+    let mut zero_on_spendable = false;
+    for o in &tx.output {
+        let (Asset::Explicit(a), Value::Explicit(v)) = (o.asset, o.value) else { return None };
+        if v == 0 {
+            zero_on_spendable |= !ext::ref_unspendable(&o.script_pubkey);
+        } else {
+            *bal.entry(a).or_insert(0) -= i128::from(v);
+        }
+    }
+    Some((bal.values().all(|v| *v == 0), zero_on_spendable))
+}
+
+/// a script that can never succeed but is not provably unspendable, or an ordinary one
+fn spendable_script(t: &mut Tape) -> Script {
+    match t.below(6) {
+        0 => {
+            let first = t.choose(&[0x50u8, 0x62, 0x65, 0x66, 0x89, 0x8a, 0xba, 0xbb, 0xc0, 0xd0, 0xe0, 0xfd, 0xfe, 0xff, 0x69, 0x6b]);
+            let mut v = vec![first];
+            let extra = t.below(6);
+            v.extend(t.bytes(extra));
+            Script::from(v)
+        }
+        1 => Script::from(vec![0x51, 0x6a]),
+        2 => Script::from(vec![0x00, 0x6a, 0x01, 0x00]),
+        3 => Script::from(vec![0x51; 10_000]),
+        4 => Script::from(vec![0x4c, 0x01, 0x6a]), // OP_RETURN as pushed data
+        _ => ext::std_script_ext(t).0,
+    }
+}
+
+/// All-explicit transactions, second generation: positive amounts on OP_RETURN / oversize scripts
+/// ("burns": inside the balance), zero amounts on every kind of provably unspendable script
+/// including ill-formed OP_RETURN scripts (outside the balance) and on spendable ones (invalid), up
+/// to two zero-value outputs of present or foreign assets, imbalances that keep the grand total
+/// (value moved between two assets, asset ids exchanged), and a history: the same transaction is
+/// first verified against an altered spent-output list, then against the genuine one, then
+/// against the altered one again; each answer must be the rule's.
+fn explicit_balance2(t: &mut Tape, ctx: &mut Ctx) -> R {
+    let p = pool();
+    let n_assets = 1 + t.below(3);
+    let n_in = 1 + t.below(4);
+    let mut input = Vec::new();
+    let mut spent = Vec::new();
+    let mut totals: BTreeMap<AssetId, u128> = BTreeMap::new();
+    for _ in 0..n_in {
+        let asset = p.assets[t.below(n_assets)];
+        let value = ct::gen_amount(t);
+        *totals.entry(asset).or_insert(0) += u128::from(value);
+        spent.push(TxOut { asset: Asset::Explicit(asset), value: Value::Explicit(value), nonce: Nonce::Null, script_pubkey: ext::std_script_ext(t).0, witness: TxOutWitness::empty() });
+        let mut txin = TxIn {
+            previous_output: OutPoint { txid: gen::gen_txid(t), vout: gen::gen_vout(t) },
+            is_pegin: false,
+            script_sig: Script::new(),
+            sequence: Sequence::MAX,
+            asset_issuance: AssetIssuance::null(),
+            witness: TxInWitness::empty(),
+        };
+        if t.chance(50) {
+            let amount = ct::gen_amount(t);
+            let reissue = t.bool();
+            let token_only = !reissue && t.chance(70);
+            txin.asset_issuance = AssetIssuance {
+                asset_blinding_nonce: if reissue { gen::gen_tweak(t) } else { elements::secp256k1_zkp::ZERO_TWEAK },
+                asset_entropy: t.arr32(),
+                amount: if token_only { Value::Null } else { Value::Explicit(amount) },
+                inflation_keys: Value::Null,
+            };
+            let (aid, tid) = ct::ref_issuance_ids(&txin);
+            if !token_only {
+                *totals.entry(aid).or_insert(0) += u128::from(amount);
+            }
+            if token_only || (!reissue && t.bool()) {
+                let k = ct::gen_amount(t);
+                txin.asset_issuance.inflation_keys = Value::Explicit(k);
+                *totals.entry(tid).or_insert(0) += u128::from(k);
+            }
+        }
+        input.push(txin);
+    }
+    // exact split; a part is a fee, a burn (positive amount on a provably unspendable script) or a payment
+    let mut output = Vec::new();
+    let mut burn_classes: Vec<&'static str> = Vec::new();
+    for (asset, total) in &totals {
+        let mut rest = u64::try_from(*total).unwrap_or(u64::MAX);
+        let parts = 1 + t.below(rest.min(3) as usize);
+        for k in 0..parts {
+            let v = if k + 1 == parts { rest } else { 1 + ((u128::from(t.u64()) * u128::from(rest - (parts - k - 1) as u64 - 1)) >> 64) as u64 };
+            rest -= v;
+            let script = match t.below(4) {
+                0 => Script::new(),
+                1 => {
+                    let (s, c) = ext::burn_script(t);
+                    burn_classes.push(c);
+                    s
+                }
+                _ => ext::std_script_ext(t).0,
+            };
+            output.push(TxOut { asset: Asset::Explicit(*asset), value: Value::Explicit(v), nonce: Nonce::Null, script_pubkey: script, witness: TxOutWitness::empty() });
+        }
+    }
+    // imbalances
+    let mut variant = "none";
+    let is_burn = |o: &TxOut| !o.script_pubkey.is_empty() && ext::ref_unspendable(&o.script_pubkey);
+    match t.below(10) {
+        0 => {
+            let k = t.below(output.len());
+            if let Value::Explicit(v) = output[k].value {
+                let delta = 1 + u64::from(t.u8());
+                let nv = if t.bool() { v.saturating_add(delta) } else { v.saturating_sub(delta).max(1) };
+                output[k].value = Value::Explicit(nv);
+                variant = "delta";
+            }
+        }
+        1 => {
+            // the amount of a burn changes
+            if let Some(k) = (0..output.len()).find(|k| is_burn(&output[*k])) {
+                if let Value::Explicit(v) = output[k].value {
+                    output[k].value = Value::Explicit(if t.bool() || v == 1 { v + 1 } else { v - 1 });
+                    variant = "delta-on-burn";
+                }
+            }
+        }
+        2 => {
+            // a burn of an amount nobody pays in: same asset (too much) or a foreign asset
+            let a = if t.bool() { p.assets.iter().find(|a| !totals.contains_key(*a)).copied() } else { totals.keys().next().copied() };
+            if let Some(a) = a {
+                let (s, c) = ext::burn_script(t);
+                burn_classes.push(c);
+                output.push(TxOut { asset: Asset::Explicit(a), value: Value::Explicit(ct::gen_amount(t)), nonce: Nonce::Null, script_pubkey: s, witness: TxOutWitness::empty() });
+                variant = "extra-burn";
+            }
+        }
+        3 => {
+            if output.len() > 1 {
+                let k = t.below(output.len());
+                output.remove(k);
+                variant = "dropped-output";
+            }
+        }
+        4 => {
+            // value moves from an output of one asset to an output of another: the grand total stays
+            let i = t.below(output.len());
+            if let Some(j) = (0..output.len()).find(|j| output[*j].asset != output[i].asset) {
+                if let (Value::Explicit(vi), Value::Explicit(vj)) = (output[i].value, output[j].value) {
+                    if vj > 1 {
+                        let d = (1 + u64::from(t.u8())).min(vj - 1).min(u64::MAX - vi);
+                        if d > 0 {
+                            output[i].value = Value::Explicit(vi + d);
+                            output[j].value = Value::Explicit(vj - d);
+                            variant = "moved-between-assets";
+                        }
+                    }
+                }
+            }
+        }
+        5 => {
+            // two outputs of different assets exchange their asset ids
+            let i = t.below(output.len());
+            if let Some(j) = (0..output.len()).find(|j| output[*j].asset != output[i].asset) {
+                let (ai, aj) = (output[i].asset, output[j].asset);
+                output[i].asset = aj;
+                output[j].asset = ai;
+                variant = "asset-ids-exchanged";
+            }
+        }
+        _ => {}
+    }
+    // zero-value outputs: 0..2, on provably unspendable or on spendable scripts, of any asset
+    let n_zero = match t.below(8) {
+        0..=3 => 0,
+        4..=6 => 1,
+        _ => 2,
+    };
+    let mut zero_classes: Vec<&'static str> = Vec::new();
+    for _ in 0..n_zero {
+        let asset = match t.below(3) {
+            0 => *totals.keys().next().unwrap_or(&p.assets[0]),
+            1 => p.assets[t.below(p.assets.len())],
+            _ => output[t.below(output.len())].asset.explicit().unwrap_or(p.assets[0]),
+        };
+        let script = if t.chance(100) {
+            zero_classes.push("zero-on-spendable");
+            spendable_script(t)
+        } else if t.chance(48) {
+            zero_classes.push("zero-on:empty-script");
+            Script::new()
+        } else {
+            let (s, c) = ext::burn_script(t);
+            zero_classes.push(c);
+            s
+        };
+        output.push(TxOut { asset: Asset::Explicit(asset), value: Value::Explicit(0), nonce: Nonce::Null, script_pubkey: script, witness: TxOutWitness::empty() });
+    }
+    for i in (1..output.len()).rev() {
+        let k = t.below(i + 1);
+        output.swap(i, k);
+    }
+    let tx = Transaction { version: 2, lock_time: LockTime::ZERO, input, output };
+    // an altered spent-output list for the history (amount + 1 on one entry: same transaction id)
+    let mut altered = spent.clone();
+    let k = t.below(altered.len());
+    if let Value::Explicit(v) = altered[k].value {
+        altered[k].value = Value::Explicit(v + 1);
+    }
+    let history = t.below(3); // 0: genuine only, 1: altered, genuine, altered, 2: genuine, altered, genuine
+    let sequence: &[bool] = match history {
+        0 => &[true],
+        1 => &[false, true, false],
+        _ => &[true, false, true],
+    };
+    let mut genuine_verifies = false;
+    for (step, genuine) in sequence.iter().enumerate() {
+        let sp = if *genuine { &spent } else { &altered };
+        let Some((balanced, zero_on_spendable)) = explicit_expected(&tx, sp) else {
+            return Err(Failure::panic("harness: explicit_expected on a non-explicit transaction".into(), "src/props/c05.rs".into()));
+        };
+        let should = balanced && !zero_on_spendable;
+        // the harness's two readings of the rule (integers / commitments) must agree
+        let by_commitments = ext::ref_verify(&tx, sp);
+        if by_commitments.is_ok() != should {
+            return Err(Failure::panic(format!("harness: integer balance says {} but the commitment-based reference says {:?}", should, by_commitments), "src/props/c05.rs".into()));
+        }
+        let r = verify(&tx, sp)?;
+        ctx.eval();
+        let what = if *genuine { "the genuine spent outputs" } else { "a spent-output list with one amount raised by 1" };
+        match (&r, should) {
+            (Ok(()), true) | (Err(_), false) => {}
+            (Err(e), true) => {
+                return Err(Failure::new(format!(
+                    "an all-explicit transaction that balances per asset is rejected against {} (call {} of {:?}, true = genuine): {} ({:?}) [imbalance={} burns={:?} zero-value outputs={:?}]\n outputs={:?}",
+                    what, step + 1, sequence, e, e, variant, burn_classes, zero_classes,
+                    tx.output.iter().map(|o| (o.value.explicit(), o.script_pubkey.len(), o.script_pubkey.as_bytes().first().copied())).collect::<Vec<_>>()
+                )));
+            }
+            (Ok(()), false) => {
+                return Err(Failure::new(format!(
+                    "an all-explicit transaction verifies against {} (call {} of {:?}, true = genuine) although {} [imbalance={} burns={:?} zero-value outputs={:?}]\n outputs={:?}",
+                    what, step + 1, sequence,
+                    if !balanced { "inputs plus issuances differ from outputs plus fees" } else { "it has a zero-value output on a spendable script" },
+                    variant, burn_classes, zero_classes,
+                    tx.output.iter().map(|o| (o.value.explicit(), o.script_pubkey.len(), o.script_pubkey.as_bytes().first().copied())).collect::<Vec<_>>()
+                )));
+            }
+        }
+        if *genuine {
+            genuine_verifies = should;
+        }
+    }
+    ctx.class(&format!("explicit2:{}", if genuine_verifies { "verifies" } else { "rejected" }));
+    ctx.class(&format!("explicit2:imbalance:{}", variant));
+    ctx.class(&format!("explicit2:history:{}", ["genuine-only", "altered-genuine-altered", "genuine-altered-genuine"][history]));
+    if tx.output.iter().any(|o| o.value.explicit().map_or(false, |v| v > 0) && is_burn(o)) {
+        ctx.class(if genuine_verifies { "explicit2:positive-burn:verifies" } else { "explicit2:positive-burn:rejected" });
+    }
+    for c in &burn_classes {
+        ctx.class(&format!("explicit2:burn-script:{}", c));
+    }
+    for c in &zero_classes {
+        ctx.class(&format!("explicit2:zero-value:{}", c));
+    }
+    if n_zero == 2 {
+        ctx.class("explicit2:two-zero-value-outputs");
+    }
+    ctx.nontrivial(&(crate::refimpl::enc::tx_full(&tx), history));
+    let cls = format!("explicit2:{}:{}", variant, if genuine_verifies { "verifies" } else { "rejected" });
+    if ctx.wants_sample(&cls) {
+        ctx.sample(&cls, || json!({"inputs": tx.input.len(), "issuances": tx.input.iter().filter(|i| i.has_issuance()).count(),
+            "outputs": tx.output.iter().map(|o| json!({"value": o.value.explicit(), "script_len": o.script_pubkey.len(), "first_byte": o.script_pubkey.as_bytes().first()})).collect::<Vec<_>>(),
+            "verifies": genuine_verifies}));
+    }
+    Ok(())
+}
+
 fn exact_proofs(t: &mut Tape, ctx: &mut Ctx) -> R {
     let p = pool();
     let mut rng = ChaCha20Rng::from_seed(t.arr32());
@@ -630,6 +1247,19 @@ fn exact_proofs(t: &mut Tape, ctx: &mut Ctx) -> R {
         ensure!(!ok(value, other_gen, comm)?, "exact-value proof verifies for another generator");
     }
     ctx.evals_n(5);
+    // a proof whose range *starts* at the claimed value but does not end there: the commitment is to
+    // value + d, the proof (minimum = value, 52 bits) is valid for it, and the claimed amount is wrong
+    {
+        let d = 1 + u64::from(t.u8());
+        let c2 = PedersenCommitment::new(secp(), value + d, vbf.into_inner(), gen);
+        let sk = p.seckeys[t.below(p.seckeys.len())];
+        if let Ok(wide) = RangeProof::new(secp(), value, c2, value + d, vbf.into_inner(), &[], &[], sk, 0, 52, gen) {
+            let r = guard::guard("blind_value_proof_verify", 0, || wide.blind_value_proof_verify(secp(), value, gen, c2))?;
+            ensure!(!r, "a range proof for [value, value + 2^52) over a commitment to value + {} is accepted as a proof that the amount is exactly value", d);
+            ctx.eval();
+            ctx.class("exact-proofs:range-starting-at-the-value");
+        }
+    }
     let ap = guard::guard("blind_asset_proof", 0, || SurjectionProof::blind_asset_proof(&mut rng, secp(), asset, abf))?;
     let ap = match ap {
         Ok(p) => p,
@@ -665,30 +1295,46 @@ fn repro_zero_opreturn() -> bool {
 pub fn property() -> Property {
     Property {
         id: "C05",
-        rule: "tamper_generated: verifying bases = blinded C04 cases; for each base EVERY applicable position of every tamper \
-               class of the statement (explicit amount +-1, explicit asset replaced, value / asset commitment replaced or \
-               exchanged, range / surjection proof removed, exchanged or byte-corrupted (kept only if it still parses), \
-               script of a blinded output changed, issuance amounts changed, spent output value altered, spent outputs \
-               permuted (only where necessarily detectable: domain <= 3), wrong count => UtxoInputLenMismatch); no-op \
-               tampers skipped and counted; oracle: verification returns Err. vectors: the repository's verifying \
-               transactions with the same tampers. tamper_hybrid: bases built from the zkp primitives with every \
-               output form (explicit, fully blinded, amount-only blinded over an explicit asset, asset-only blinded with \
-               an explicit amount) over spent outputs of every form, same tampers. explicit_balance: all-explicit transactions (inputs + issuances vs \
-               outputs + fees per asset, balanced / off by delta / foreign asset / dropped output, zero-value outputs on \
-               provably unspendable vs spendable scripts); oracle: verifies <=> harness per-asset balance holds and every \
-               zero-value output is provably unspendable. exact_proofs: blind_value_proof / blind_asset_proof verify for the \
-               right data and not for value+-1, other commitment, other generator / asset. Non-trivial: base verifies and \
-               the tamper changes >= 1 byte; distinct by (base, class, tampered encoding).",
+        rule: "tamper_generated: verifying bases = blinded C04 cases (scripts p2pkh / p2sh / v0 / v1 2..40 bytes / v2..v16, positive \
+               amounts on OP_RETURN / oversize scripts, amounts up to 2^64-1); a base that cannot be blinded or that the \
+               library does not accept is excluded and counted (C04 reports it). For each base EVERY applicable position of \
+               every tamper class of the statement (explicit amount +-1, explicit asset replaced (skipped for a zero amount on \
+               an unspendable script), value / asset commitment replaced or exchanged, range / surjection proof removed, \
+               exchanged or byte-corrupted (kept only if it still parses), script of a blinded output changed, issuance \
+               amounts changed / removed / commitment replaced, spent output value altered, spent output asset replaced (only \
+               where necessarily detectable: explicit amount, domain <= 3, or the only domain entry of a blinded output's \
+               asset), spent output asset / value Null, spent output replaced, spent outputs permuted (only where necessarily \
+               detectable: domain <= 3), wrong count => UtxoInputLenMismatch); no-op tampers skipped and counted; oracle: \
+               verification returns Err. Half of the cases (tape) verify all tampers BEFORE the base is verified for the first \
+               time; the base is verified again at the end. vectors: the repository's verifying transactions with the same \
+               tampers. tamper_hybrid: bases built from the zkp primitives only (balancing factor by the harness's own \
+               mod-n arithmetic, validity by the harness's own verifier) with every output form (explicit, fully blinded, \
+               amount-only, asset-only) over spent outputs of every form; blinded outputs also on OP_RETURN / 10001-byte / empty \
+               / bare scripts; a zero-value output on an unspendable script; confidential issuance amounts / inflation keys \
+               (token id of a confidential issuance); same tampers plus one only the balance can catch (a blinded amount \
+               re-committed to value+1 with a fresh valid range proof). explicit_balance: all-explicit transactions (inputs + \
+               issuances vs outputs + fees per asset, balanced / off by delta / foreign asset / dropped output, zero-value \
+               outputs on provably unspendable vs spendable scripts); oracle: verifies <=> harness per-asset balance holds and \
+               every zero-value output is provably unspendable. explicit_balance2: the same rule with positive amounts on \
+               OP_RETURN (bare, one push, raw tail, truncated push, non-push opcode, 10001 bytes) / oversize scripts inside the \
+               balance, 0..2 zero-value outputs of present or foreign assets on those scripts, the empty script or spendable \
+               scripts, value moved between two assets, asset ids exchanged, burn amount changed; each transaction verified in \
+               a history genuine / altered-spent-outputs / genuine (and the mirror), every answer compared with the integer \
+               rule (cross-checked with the commitment-based reference). exact_proofs: blind_value_proof / blind_asset_proof \
+               verify for the right data and not for value+-1, other commitment, other generator / asset, nor a valid range \
+               proof whose range only starts at the value. Non-trivial: base verifies and the tamper changes >= 1 byte; \
+               distinct by (base, class, tampered encoding).",
         assumptions: &[
             "secp256k1-zkp is the trusted base; cryptographic negatives hold with overwhelming probability",
             "provably unspendable = CScript::IsUnspendable as the library documents it (OP_RETURN first, > 10000 bytes, or the empty fee script); a script that merely cannot succeed (reserved first opcode, OP_RETURN later) is not",
         ],
         subs: vec![
-            Sub { name: "tamper_generated", kind: Kind::Tape { max_len: 3000, quick: 500, thorough: 15_000, f: tamper_generated } },
-            Sub { name: "tamper_hybrid", kind: Kind::Tape { max_len: 3000, quick: 500, thorough: 15_000, f: tamper_hybrid } },
+            Sub { name: "tamper_generated", kind: Kind::Tape { max_len: 3000, quick: 600, thorough: 15_000, f: tamper_generated } },
+            Sub { name: "tamper_hybrid", kind: Kind::Tape { max_len: 3000, quick: 900, thorough: 25_000, f: tamper_hybrid } },
             Sub { name: "vectors", kind: Kind::Index { count: |t| t.pick(8, 120), exhaustive: false, f: repo_vectors } },
             Sub { name: "explicit_balance", kind: Kind::Tape { max_len: 2500, quick: 20_000, thorough: 500_000, f: explicit_balance } },
             Sub { name: "exact_proofs", kind: Kind::Tape { max_len: 600, quick: 1_500, thorough: 40_000, f: exact_proofs } },
+            Sub { name: "explicit_balance2", kind: Kind::Tape { max_len: 2500, quick: 12_000, thorough: 400_000, f: explicit_balance2 } },
         ],
         known: vec![Known { key: KF_ZERO_OPRETURN, what: "a balanced explicit transaction with a zero-value output on a provably unspendable script is rejected (ZeroValueCommitment)", repro: repro_zero_opreturn }],
     }
